@@ -818,7 +818,7 @@ From AGH Require Import Model.FilterSwitch Proofs.FilterSwitch.
 (** For the queue of rebuilds the switch does not exist: a filtering/config
     call is a handler call that changes no list and asks for a rebuild. *)
 Theorem C01_switch_transparent_to_queue :
-  forall hs g, g_q (grun gate_as_written g hs) = hrun (g_q g) (map erase hs).
+  forall hs g, g_q (grun gate_as_written config_always g hs) = hrun (g_q g) (map erase hs).
 Proof. exact switch_transparent_to_queue. Qed.
 Print Assumptions C01_switch_transparent_to_queue.
 
@@ -829,7 +829,7 @@ Print Assumptions C01_switch_transparent_to_queue.
     set as the global default (which a client's own settings override). *)
 Theorem C01_engine_rebuilt_regardless_of_global_switch :
   forall sb par ss srt on st hs c up q,
-  let g := grun gate_as_written (ginit gate_as_written on st) hs in
+  let g := grun gate_as_written config_always (ginit gate_as_written on st) hs in
   ask_q sb par ss srt (pquiesce (g_q g)) (cfg_filt c (g_on g)) up q
   = ask sb par ss srt (q_conf (g_q g)) (cfg_filt c (g_on g)) up q.
 Proof. exact engine_rebuilt_regardless_of_global_switch. Qed.
@@ -837,7 +837,7 @@ Print Assumptions C01_engine_rebuilt_regardless_of_global_switch.
 
 Theorem C01_own_filtering_client_blocked_by_latest_rules :
   forall sb par ss srt on st hs c up q,
-  let g := grun gate_as_written (ginit gate_as_written on st) hs in
+  let g := grun gate_as_written config_always (ginit gate_as_written on st) hs in
   let c' := cfg_filt c (g_on g) in
   blocked_by_spec (match_request (allow_rules (q_conf (g_q g)))) (match_request (block_rules (q_conf (g_q g)))) srt c' q ->
   let o := ask_q sb par ss srt (pquiesce (g_q g)) c' up q in
@@ -852,9 +852,9 @@ Print Assumptions C01_own_filtering_client_blocked_by_latest_rules.
     (C01-N): switched off, set_rules, loop: the engines lack the new rule;
     started with the flag off: the engines hold nothing. *)
 Theorem C01_rebuild_only_when_on_refuted :
-  (exists hs, let g := grun gate_only_when_on (ginit gate_only_when_on true sw_state) hs in
+  (exists hs, let g := grun gate_only_when_on config_always (ginit gate_only_when_on true sw_state) hs in
      q_engine (pquiesce (g_q g)) <> ptake (q_conf (g_q g)) /\
-     let g' := grun gate_as_written (ginit gate_as_written true sw_state) hs in
+     let g' := grun gate_as_written config_always (ginit gate_as_written true sw_state) hs in
      q_engine (pquiesce (g_q g')) = ptake (q_conf (g_q g'))) /\
   q_engine (pquiesce (g_q (ginit gate_only_when_on false sw_state))) <> ptake sw_state.
 Proof. exact rebuild_only_when_on_refuted. Qed.
@@ -862,9 +862,76 @@ Print Assumptions C01_rebuild_only_when_on_refuted.
 
 Example C01_switch_premises_satisfiable :
   forall m,
-  let g := grun gate_as_written (ginit gate_as_written true (mkLState [] [] []))
+  let g := grun gate_as_written config_always (ginit gate_as_written true (mkLState [] [] []))
              [GConfig false; GOp (HHandle (QRules ex_block_rules)); GOp HLoop] in
   g_on g = false /\ c_filtering (cfg_filt (ex_cfg m) (g_on g)) = false /\
   blocked_by_spec (match_request (allow_rules (q_conf (g_q g)))) (match_request (block_rules (q_conf (g_q g))))
     Rewrites.isort (cfg_filt (ex_cfg m) (g_on g)) sw_query.
 Proof. exact switch_premises_satisfiable. Qed.
+
+(** * Round 8: the flag the requests read, and the blocking configuration at
+    run time *)
+
+(** enableFiltersLocked is the only place that publishes conf.FilteringEnabled
+    to the flag Settings() reads: in the code as it is the two agree after
+    every history ... *)
+Theorem C01_published_flag_is_configured_flag :
+  forall hs g, g_on g = g_conf g ->
+  g_on (grun gate_as_written config_always g hs) = g_conf (grun gate_as_written config_always g hs).
+Proof. exact flag_in_step_after_history. Qed.
+Print Assumptions C01_published_flag_is_configured_flag.
+
+(** ... and once a filtering/config call has returned, the flag the requests
+    read is the one it set, until the next config call. *)
+Theorem C01_switch_in_force_after_config :
+  forall g en rest,
+  Forall (fun o => match o with GConfig _ => False | GOp _ => True end) rest ->
+  g_on (grun gate_as_written config_always g (GConfig en :: rest)) = en.
+Proof. exact switch_in_force_after_config. Qed.
+Print Assumptions C01_switch_in_force_after_config.
+
+(** The seeded handler (EnableFilters(true) only when enabling, C02-P):
+    switched off, the configuration says off, the requests still read on. *)
+Theorem C01_publish_only_when_enabling_refuted :
+  exists g, g_on g = g_conf g /\
+    g_on (grun gate_as_written config_only_when_enabling g [GConfig false]) = true /\
+    g_conf (grun gate_as_written config_only_when_enabling g [GConfig false]) = false /\
+    g_on (grun gate_as_written config_always g [GConfig false]) = false.
+Proof. exact publish_only_when_enabling_refuted. Qed.
+Print Assumptions C01_publish_only_when_enabling_refuted.
+
+(** After any history of dns_config calls the blocking mode is the one of the
+    last call that carried a mode and, for custom_ip, the two addresses are
+    those of that call (also when the mode was custom_ip already); the TTL is
+    that of the last call that carried one; nothing else changes, so
+    C01_blocked_is_local's synthetic answer is that of the last configuration. *)
+Theorem C01_blocking_config_follows_last_dns_config :
+  forall c h m v4 v6 rest,
+  Forall (fun o => match o with Protection.BMode _ _ _ => False | Protection.BTTL _ => True end) rest ->
+  let c' := brun_now c (h ++ Protection.BMode m v4 v6 :: rest) in
+  c_mode c' = m /\ (m = MCustomIP -> c_ip4 c' = v4 /\ c_ip6 c' = v6).
+Proof. exact blocking_follows_last_dns_config. Qed.
+Print Assumptions C01_blocking_config_follows_last_dns_config.
+
+Theorem C01_blocked_ttl_follows_last_dns_config :
+  forall c h t rest,
+  Forall (fun o => match o with Protection.BTTL _ => False | Protection.BMode _ _ _ => True end) rest ->
+  c_ttl (brun_now c (h ++ Protection.BTTL t :: rest)) = t.
+Proof. exact ttl_follows_last_dns_config. Qed.
+Print Assumptions C01_blocked_ttl_follows_last_dns_config.
+
+Theorem C01_blocking_ops_keep_the_rest :
+  forall c h,
+  let c' := brun_now c h in
+  protection_on c' = protection_on c /\ c_filtering c' = c_filtering c /\ c_rewrites c' = c_rewrites c /\
+  c_services c' = c_services c /\ c_aaaa_disabled c' = c_aaaa_disabled c.
+Proof. exact blocking_ops_keep_the_rest. Qed.
+Print Assumptions C01_blocking_ops_keep_the_rest.
+
+(** The seeded setConfig (the filter is told only when the mode differs):
+    custom_ip re-sent with another pair of addresses keeps the old pair. *)
+Theorem C01_blocking_skipped_when_mode_unchanged_refuted :
+  exists c h v4, c_mode (brun_now c h) = MCustomIP /\ c_ip4 (brun_now c h) = v4 /\
+    c_mode (brun mode_only_when_changed c h) = MCustomIP /\ c_ip4 (brun mode_only_when_changed c h) <> v4.
+Proof. exact blocking_skipped_when_mode_unchanged_refuted. Qed.
+Print Assumptions C01_blocking_skipped_when_mode_unchanged_refuted.
